@@ -690,6 +690,19 @@ fn explore(ctx: &Ctx) -> Outcome {
         }
     }
 
+    // ... and EACH SINGLE call of that series immediately before a representative case
+    for i in 0..props::poison::count() {
+        for idx in [[0usize, 1, 2], [3, 4, 5]] {
+            let c = Case { fam: format!("after-single-call:{}", i), hdr: HDRS[i % 4], specs: idx.iter().map(|k| shape(*k)).collect() };
+            props::poison::single_call(i);
+            let before = t4.violations.len();
+            run_case(&c, &mut t4);
+            for v in t4.violations.iter_mut().skip(before) {
+                v.sig = format!("after-single-call:{}", v.sig);
+            }
+        }
+    }
+
     // family 3: scale
     let t3 = scale_cases()
         .par_iter()
@@ -811,8 +824,12 @@ fn replay(_ctx: &Ctx, case: &Value) -> Vec<Violation> {
     if poisoned {
         props::poison::failing_calls();
     }
+    let single = c.fam.strip_prefix("after-single-call:").and_then(|i| i.parse::<usize>().ok());
+    if let Some(i) = single {
+        props::poison::single_call(i);
+    }
     match judge(&c, &mut t) {
-        Some((sig, summary)) => vec![Violation { sig: if poisoned { format!("after-failed-calls:{}", sig) } else { sig }, summary, case: case.clone() }],
+        Some((sig, summary)) => vec![Violation { sig: if poisoned { format!("after-failed-calls:{}", sig) } else if single.is_some() { format!("after-single-call:{}", sig) } else { sig }, summary, case: case.clone() }],
         None => vec![],
     }
 }
